@@ -1134,6 +1134,26 @@ func (ex *Exec) iteValue(c *Term, a, b Value, at ssa.Value) Value {
 			return a
 		}
 	}
+	// two different function values (closures / functions, possibly one first-order reference already): merge
+	// their first-class references; a call through the merged value goes by the contract of its function type
+	asRef := func(v Value) *Term {
+		switch x := v.(type) {
+		case *Closure, *FuncVal:
+			return ex.funcRefOf(v)
+		case *Term:
+			if x.Sort == SInt {
+				return x
+			}
+		}
+		return nil
+	}
+	if ra, rb := asRef(a), asRef(b); ra != nil && rb != nil {
+		_, fa := a.(*Term)
+		_, fb := b.(*Term)
+		if !(fa && fb) {
+			return Ite(c, ra, rb)
+		}
+	}
 	where := ""
 	if at != nil {
 		where = fmt.Sprintf(" at %s in %s", at.Name(), at.Parent())
